@@ -36,7 +36,8 @@ COLS = [('r', int), ('k', str), ('v', int)]
 
 def alphabet(seed):
     vs = [(None, 1, 5), (None, 2, 7), (None, -3, 1)][seed % 3]
-    return list(itertools.product([2, 10, 3], ['x', 'y', 'z'], vs))
+    # 2 < 3 < 10 numerically but not as text; 0 is falsy and sorts after -1
+    return list(itertools.product([2, 10, 3, 0, -1], ['x', 'y', 'z'], vs))
 
 
 def alphabet_small(seed):
@@ -246,7 +247,7 @@ def replay(c):
 
 
 def run(ctx):
-    # quick: all tables <= 3 rows over the 12-letter alphabet (r in 2, k in 3, v in 2) and <= 2 rows over the 27-letter one
+    # quick: all tables <= 3 rows over the 12-letter alphabet (r in 2, k in 3, v in 2) and <= 2 rows over the 45-letter one (r in {2, 10, 3, 0, -1})
     plans = ctx.pick([(3, True), (2, False)], [(4, True), (3, False)])
     acc = Acc()
     for L, small in plans:
@@ -259,7 +260,7 @@ def run(ctx):
         'rule': 'a case = one (layout, table) pivoted execution compared with the reference reshaping of the reference un-pivoted result and un-pivoted back; '
                 'distinct_nontrivial = distinct (rows, second-key values, remaining columns) result shapes',
         'exhaustive': True,
-        'bound': [f'ALL tables of <= {L} rows over the {"12" if small else "27"}-letter row alphabet x ALL {sorted(acc.sets["layouts"])} layouts' for L, small in plans],
+        'bound': [f'ALL tables of <= {L} rows over the {"12" if small else "45"}-letter row alphabet x ALL {sorted(acc.sets["layouts"])} layouts' for L, small in plans],
         'tables': n['tables'], 'sparse_results': n['sparse_results'], 'results_2x2_or_larger': n['results_2x2_or_larger'],
         'invalid_references_tried': n['invalid_references'], 'invalid_references_rejected': n['invalid_rejected'],
         'samples': acc.samples,
